@@ -99,6 +99,11 @@ def ensure_facts(config='default', repo=None, quiet=False):
         # a scratch repo uses its own target dir so that parallel self-tests do not collide
         tname = 'target-%s' % config if repo == REPO else 'target-%s-%s' % (config, hashlib.sha1(repo.encode()).hexdigest()[:8])
         target = os.path.join(WORK, tname)
+        if repo != REPO and not os.path.exists(target):
+            # seed the scratch target dir with the dependency artefacts of the main one
+            main_t = os.path.join(WORK, 'target-%s' % config)
+            if os.path.exists(main_t):
+                subprocess.run(['cp', '-a', main_t, target])
         # cargo's freshness cache would skip the wrapper: drop the workspace members' fingerprints
         for fp in glob.glob(os.path.join(target, 'debug', '.fingerprint', 'cfr-*')):
             shutil.rmtree(fp, ignore_errors=True)
